@@ -70,6 +70,10 @@ Qed.
 Lemma lookup_node_fr s s' h : hm s' = hm s -> nodes s' = nodes s -> lookup_node s' h = lookup_node s h.
 Proof. intros A B. unfold lookup_node, node_get. rewrite A, B. reflexivity. Qed.
 
+(* READ / WRITE / SETATTR refuse handles whose node is a symbolic link *)
+Lemma not_link k : k <> KLink -> kind_eqb k KLink = false.
+Proof. destruct k; [reflexivity|reflexivity|congruence]. Qed.
+
 Lemma stat_size_file o : o_kind o = KFile -> stat_size o = o_size o.
 Proof. intros K. unfold stat_size. rewrite K. reflexivity. Qed.
 
@@ -80,7 +84,7 @@ Definition read_count (s : srv) (o : obj) (off cnt : N) : N :=
   if o_size o <=? off then 0 else N.min (N.min cnt (tsize (conf s))) (o_size o - off).
 
 Lemma handle_read_ok s h p na o off cnt :
-  lookup_node s h = Some (p, na) -> plain_file (fs s) p o -> off + cnt < two64 -> off < two63N ->
+  lookup_node s h = Some (p, na) -> na_kind na <> KLink -> plain_file (fs s) p o -> off + cnt < two64 -> off < two63N ->
   let r := handle_read s h off cnt in
   let count := read_count s o off cnt in
   ob_rpc (snd r) = 0 /\ ob_status (snd r) = 0 /\ ob_nums (snd r) = [count] /\
@@ -88,11 +92,11 @@ Lemma handle_read_ok s h p na o off cnt :
   ob_eof (snd r) = (o_size o <=? off + count) /\
   RO s (fst r).
 Proof.
-  intros L [P K] H64 H63. cbv zeta.
+  intros L Hk [P K] H64 H63. cbv zeta.
   assert (R : RO s (fst (handle_read s h off cnt))) by apply handle_read_ro. revert R.
   unfold handle_read, read_count.
   replace (two64 - 1 - cnt <? off) with false by (unfold two64 in *; lia).
-  rewrite L; replace (two63N <=? off) with false by lia.
+  rewrite L, (not_link _ Hk); replace (two63N <=? off) with false by lia.
   cbn [fs logc]; rewrite (be_open_file _ _ _ false P K), (plain_get _ _ _ P), (stat_size_file _ K).
   destruct (o_size o <=? off) eqn:E; cbn [fst snd].
   - ga s2 x F V; cbn [fs logc] in V; rewrite (be_stat_plain _ _ _ false P) in V; subst x.
@@ -113,12 +117,16 @@ Qed.
 Lemma handle_read_guard s h off cnt :
   let r := handle_read s h off cnt in
   (cnt < two64 -> two64 <= off + cnt -> r = (s, fail_post NFSERR_INVAL)) /\
-  (off + cnt < two64 -> two63N <= off -> forall p na, lookup_node s h = Some (p, na) -> r = (s, fail_post NFSERR_IO)).
+  (off + cnt < two64 -> forall p na, lookup_node s h = Some (p, na) -> na_kind na = KLink -> r = (s, fail_post NFSERR_INVAL)) /\
+  (off + cnt < two64 -> two63N <= off -> forall p na, lookup_node s h = Some (p, na) -> na_kind na <> KLink ->
+     r = (s, fail_post NFSERR_IO)).
 Proof.
-  cbv zeta. unfold handle_read. split.
+  cbv zeta. unfold handle_read. splits.
   - intros H0 H. replace (two64 - 1 - cnt <? off) with true by (unfold two64 in *; lia). reflexivity.
-  - intros H1 H2 p na L. replace (two64 - 1 - cnt <? off) with false by (unfold two64 in *; lia).
-    rewrite L. replace (two63N <=? off) with true by lia. reflexivity.
+  - intros H1 p na L Hk. replace (two64 - 1 - cnt <? off) with false by (unfold two64 in *; lia).
+    rewrite L, Hk. reflexivity.
+  - intros H1 H2 p na L Hk. replace (two64 - 1 - cnt <? off) with false by (unfold two64 in *; lia).
+    rewrite L, (not_link _ Hk). replace (two63N <=? off) with true by lia. reflexivity.
 Qed.
 
 (* ====================================================================================================== *)
@@ -140,21 +148,21 @@ Lemma node_upd_fs s h f : fs (node_upd s h f) = fs s.
 Proof. apply node_upd_ro. Qed.
 
 Lemma handle_write_eq s h p na o off cnt stable data :
-  lookup_node s h = Some (p, na) -> plain_file (fs s) p o -> nodup_keys (fs s) ->
+  lookup_node s h = Some (p, na) -> na_kind na <> KLink -> plain_file (fs s) p o -> nodup_keys (fs s) ->
   ro (conf s) = false -> cnt = N.of_nat (length data) -> cnt <= tsize (conf s) ->
   off + cnt < two63N -> no_fbig_write s off cnt ->
   exists s' a prea,
     handle_write s h off cnt stable data = (s', ob_mk st_ok [sf a] [wcc_of prea] None [cnt; 2] []) /\
     fs s' = fs_upd (fs_upd (fs_upd (fs s) p (fun o => written o off data (now s))) p sync_f) p (mtime_f (now s)).
 Proof.
-  intros L [P K] ND Hro Hc Ht H63 Hm.
+  intros L Hk [P K] ND Hro Hc Ht H63 Hm.
   unfold handle_write. rewrite Hro.
   replace (two64 - 1 - cnt <? off) with false by (unfold two64, two63N in *; lia).
   replace (negb (cnt =? N.of_nat (length data))) with false by lia.
   replace (tsize (conf s) <? cnt) with false by lia.
   replace ((0 <? maxfile (conf s)) && (0 <? cnt) && ((maxfile (conf s) <? off) || (maxfile (conf s) - off <? cnt)))
     with false by (unfold no_fbig_write in Hm; lia).
-  rewrite L.
+  rewrite L, (not_link _ Hk).
   ga s1 pre F1 V1. rewrite (be_stat_plain _ _ _ false P) in V1. subst pre.
   destruct F1 as (F1f & F1c & F1h & F1n & F1t & F1s).
   replace (two63N <=? off) with false by lia.
@@ -181,7 +189,7 @@ Proof.
 Qed.
 
 Lemma handle_write_ok s h p na o off cnt stable data :
-  lookup_node s h = Some (p, na) -> plain_file (fs s) p o -> nodup_keys (fs s) ->
+  lookup_node s h = Some (p, na) -> na_kind na <> KLink -> plain_file (fs s) p o -> nodup_keys (fs s) ->
   ro (conf s) = false -> cnt = N.of_nat (length data) -> cnt <= tsize (conf s) ->
   off + cnt < two63N -> no_fbig_write s off cnt ->
   let r := handle_write s h off cnt stable data in
@@ -192,8 +200,8 @@ Lemma handle_write_ok s h p na o off cnt stable data :
               bf_eq (durable_of o') (file_of o')) /\
   (forall p', p' <> p -> fs_get (fs (fst r)) p' = fs_get (fs s) p').
 Proof.
-  intros L PK ND Hro Hc Ht H63 Hm. cbv zeta.
-  destruct (handle_write_eq s h p na o off cnt stable data L PK ND Hro Hc Ht H63 Hm) as (s' & a & prea & E & Ef).
+  intros L Hk PK ND Hro Hc Ht H63 Hm. cbv zeta.
+  destruct (handle_write_eq s h p na o off cnt stable data L Hk PK ND Hro Hc Ht H63 Hm) as (s' & a & prea & E & Ef).
   destruct PK as [P K].
   rewrite E. cbn [fst snd ob_mk ob_rpc ob_status ob_nums]. splits; try reflexivity.
   - exists (mtime_f (now s) (sync_f (written o off data (now s)))).
@@ -212,6 +220,9 @@ Lemma handle_write_guard s h off cnt stable data :
   (ro (conf s) = false -> cnt < two64 -> two64 <= off + cnt -> r = (s, fail_wcc NFSERR_INVAL)) /\
   (ro (conf s) = false -> off + cnt < two64 -> cnt <> N.of_nat (length data) -> r = (s, fail_wcc GARBAGE)) /\
   (ro (conf s) = false -> off + cnt < two64 -> cnt = N.of_nat (length data) -> tsize (conf s) < cnt ->
+     r = (s, fail_wcc NFSERR_INVAL)) /\
+  (ro (conf s) = false -> off + cnt < two64 -> cnt = N.of_nat (length data) -> cnt <= tsize (conf s) ->
+     no_fbig_write s off cnt -> forall p na, lookup_node s h = Some (p, na) -> na_kind na = KLink ->
      r = (s, fail_wcc NFSERR_INVAL)).
 Proof.
   cbv zeta. unfold handle_write. splits.
@@ -222,26 +233,32 @@ Proof.
   - intros -> H0 H H1. replace (two64 - 1 - cnt <? off) with false by (unfold two64 in *; lia).
     replace (negb (cnt =? N.of_nat (length data))) with false by lia.
     replace (tsize (conf s) <? cnt) with true by lia. reflexivity.
+  - intros -> H0 H H1 Hm p na L Hk. replace (two64 - 1 - cnt <? off) with false by (unfold two64 in *; lia).
+    replace (negb (cnt =? N.of_nat (length data))) with false by lia.
+    replace (tsize (conf s) <? cnt) with false by lia.
+    replace ((0 <? maxfile (conf s)) && (0 <? cnt) && ((maxfile (conf s) <? off) || (maxfile (conf s) - off <? cnt)))
+      with false by (unfold no_fbig_write in Hm; lia).
+    rewrite L, Hk. reflexivity.
 Qed.
 
 (* the two int64 rejections behind the guards: offset >= 2^63 ("negative offset"), and the backend's own
    EINVAL when offset + count reaches 2^63; both answer NFS3ERR_IO and leave the tree alone *)
 Lemma handle_write_guard63 s h p na o off cnt stable data :
-  lookup_node s h = Some (p, na) -> plain_file (fs s) p o ->
+  lookup_node s h = Some (p, na) -> na_kind na <> KLink -> plain_file (fs s) p o ->
   ro (conf s) = false -> cnt = N.of_nat (length data) -> cnt <= tsize (conf s) ->
   off + cnt < two64 -> no_fbig_write s off cnt -> two63N <= off + cnt ->
   let r := handle_write s h off cnt stable data in
   ob_rpc (snd r) = 0 /\ ob_status (snd r) = NFSERR_IO /\ ob_nums (snd r) = [] /\ fs (fst r) = fs s /\
   (two63N <= off -> RO s (fst r)).
 Proof.
-  intros L [P K] Hro Hc Ht H64 Hm H63. cbv zeta.
+  intros L Hk [P K] Hro Hc Ht H64 Hm H63. cbv zeta.
   unfold handle_write. rewrite Hro.
   replace (two64 - 1 - cnt <? off) with false by (unfold two64, two63N in *; lia).
   replace (negb (cnt =? N.of_nat (length data))) with false by lia.
   replace (tsize (conf s) <? cnt) with false by lia.
   replace ((0 <? maxfile (conf s)) && (0 <? cnt) && ((maxfile (conf s) <? off) || (maxfile (conf s) - off <? cnt)))
     with false by (unfold no_fbig_write in Hm; lia).
-  rewrite L.
+  rewrite L, (not_link _ Hk).
   ga s1 pre F1 V1. rewrite (be_stat_plain _ _ _ false P) in V1. subst pre.
   destruct (two63N <=? off) eqn:E.
   - ga s2 post F2 V2. cbn [fst snd ob_mk ob_rpc ob_status ob_nums]. splits; try reflexivity.
@@ -281,14 +298,14 @@ Proof.
 Qed.
 
 Lemma handle_setattr_size_eq s c h p na o sa sz :
-  lookup_node s h = Some (p, na) -> plain_file (fs s) p o ->
+  lookup_node s h = Some (p, na) -> na_kind na <> KLink -> plain_file (fs s) p o ->
   ro (conf s) = false -> size_only sa sz -> sz < two63N -> no_fbig_size s sz ->
   exists s' a prea,
     handle_setattr s c h sa None = (s', ob_mk st_ok [sf a] [wcc_of prea] None [] []) /\
     fs s' = fs_upd (fs s) p (trunc_f sz (now s)).
 Proof.
-  intros L [P K] Hro (Hmode & Huid & Hgid & Hsize & Hat & Hmt) H63 Hm.
-  unfold handle_setattr. rewrite Hro, Hmode, L.
+  intros L Hk [P K] Hro (Hmode & Huid & Hgid & Hsize & Hat & Hmt) H63 Hm.
+  unfold handle_setattr. rewrite Hro, Hmode, L, (not_link _ Hk).
   ga s1 pre F1 V1. rewrite (be_stat_plain _ _ _ false P) in V1. subst pre.
   destruct F1 as (F1f & F1c & F1h & F1n & F1t & F1s).
   rewrite Hsize. replace (two63N <=? sz) with false by lia. rewrite F1c.
@@ -317,7 +334,7 @@ Proof.
 Qed.
 
 Lemma handle_setattr_size_ok s c h p na o sa sz :
-  lookup_node s h = Some (p, na) -> plain_file (fs s) p o ->
+  lookup_node s h = Some (p, na) -> na_kind na <> KLink -> plain_file (fs s) p o ->
   ro (conf s) = false -> size_only sa sz -> sz < two63N -> no_fbig_size s sz ->
   let r := handle_setattr s c h sa None in
   ob_rpc (snd r) = 0 /\ ob_status (snd r) = 0 /\
@@ -326,8 +343,8 @@ Lemma handle_setattr_size_ok s c h p na o sa sz :
               bf_eq (file_of o') (spec_trunc (file_of o) sz)) /\
   (forall p', p' <> p -> fs_get (fs (fst r)) p' = fs_get (fs s) p').
 Proof.
-  intros L PK Hro Hsa H63 Hm. cbv zeta.
-  destruct (handle_setattr_size_eq s c h p na o sa sz L PK Hro Hsa H63 Hm) as (s' & a & prea & E & Ef).
+  intros L Hk PK Hro Hsa H63 Hm. cbv zeta.
+  destruct (handle_setattr_size_eq s c h p na o sa sz L Hk PK Hro Hsa H63 Hm) as (s' & a & prea & E & Ef).
   destruct PK as [P K]. rewrite E. cbn [fst snd ob_mk ob_rpc ob_status]. splits; try reflexivity.
   - exists (trunc_f sz (now s) o). rewrite Ef, fs_get_upd, (plain_get _ _ _ P), path_eqb_refl.
     splits; try reflexivity; try exact K. apply (sd_trunc_spec (o_data o) (o_size o) sz).
@@ -353,8 +370,15 @@ Proof.
 Qed.
 
 (* SETATTR(size): the two rejections of the size, before anything is changed *)
+(* a symbolic-link handle: INVAL before anything else, the state is returned untouched *)
+Lemma handle_setattr_link s c h p na sa guard :
+  ro (conf s) = false -> match s_mode sa with Some m => N.testbit m 15 | None => false end = false ->
+  lookup_node s h = Some (p, na) -> na_kind na = KLink ->
+  handle_setattr s c h sa guard = (s, fail_wcc NFSERR_INVAL).
+Proof. intros Hro Hmode L Hk. unfold handle_setattr. rewrite Hro, Hmode, L, Hk. reflexivity. Qed.
+
 Lemma handle_setattr_size_reject s c h p na fi sa sz :
-  lookup_node s h = Some (p, na) -> be_stat (fs s) p false = Ok fi -> ro (conf s) = false ->
+  lookup_node s h = Some (p, na) -> na_kind na <> KLink -> be_stat (fs s) p false = Ok fi -> ro (conf s) = false ->
   match s_mode sa with Some m => N.testbit m 15 | None => false end = false ->
   s_size sa = Some sz ->
   let r := handle_setattr s c h sa None in
@@ -362,7 +386,7 @@ Lemma handle_setattr_size_reject s c h p na fi sa sz :
   (sz < two63N -> 0 < maxfile (conf s) -> maxfile (conf s) < sz ->
      ob_rpc (snd r) = 0 /\ ob_status (snd r) = NFSERR_FBIG /\ RO s (fst r)).
 Proof.
-  intros L St Hro Hmode Hsize. cbv zeta. unfold handle_setattr. rewrite Hro, Hmode, L.
+  intros L Hk St Hro Hmode Hsize. cbv zeta. unfold handle_setattr. rewrite Hro, Hmode, L, (not_link _ Hk).
   ga s1 pre F1 V1. rewrite St in V1. subst pre. rewrite Hsize.
   apply Fr_RO in F1. assert (F1c : conf s1 = conf s) by apply F1. rewrite F1c.
   split.
@@ -447,6 +471,7 @@ Proof.
   destruct ((0 <? maxfile (conf s)) && (0 <? cnt) && ((maxfile (conf s) <? off) || (maxfile (conf s) - off <? cnt))) eqn:G;
     [apply UO_refl|].
   destruct (lookup_node s h) as [[p na]|]; [|apply UO_refl].
+  destruct (kind_eqb (na_kind na) KLink); [apply UO_refl|].
   ga s1 pre F1 V1. destruct F1 as (F1f & _). destruct pre as [prea|e]; [|apply UO_eq; exact F1f].
   destruct (two63N <=? off).
   { ga s2 post F2 V2. destruct F2 as (F2f & _). apply UO_eq. cbn [fst]. congruence. }
@@ -496,6 +521,7 @@ Proof.
   destruct (ro (conf s)); [apply UO_refl|].
   destruct (match s_mode sa with Some m => N.testbit m 15 | None => false end); [apply UO_refl|].
   destruct (lookup_node s h) as [[p na]|]; [|apply UO_refl].
+  destruct (kind_eqb (na_kind na) KLink); [apply UO_refl|].
   ga s1 pre F1 V1. destruct F1 as (F1f & F1c & _). destruct pre as [prea|e]; [|apply UO_eq; exact F1f].
   match goal with |- context [if ?c then (s1, fail_wcc NFSERR_NOT_SYNC) else _] => destruct c end; [apply UO_eq; exact F1f|].
   match goal with |- context [match snd ?x with Some _ => _ | None => _ end] => set (rs := x) end.
@@ -572,6 +598,7 @@ Proof.
   destruct (negb (cnt =? N.of_nat (length data))); [reflexivity|].
   destruct (tsize (conf s) <? cnt); [reflexivity|].
   rewrite lookup_node_mf0. destruct (lookup_node s h) as [[p na]|]; [|reflexivity].
+  destruct (kind_eqb (na_kind na) KLink); [reflexivity|].
   rewrite getattr_h_mf0. destruct (getattr_h s h p) as [s1 [prea|e]]; cbn [fst snd]; [|reflexivity].
   destruct (two63N <=? off).
   { rewrite getattr_h_mf0. destruct (getattr_h s1 h p) as [s2 post]. reflexivity. }
@@ -621,6 +648,7 @@ Proof.
   destruct (ro (conf s)); [reflexivity|].
   destruct (match s_mode sa with Some m => N.testbit m 15 | None => false end); [reflexivity|].
   rewrite lookup_node_mf0. destruct (lookup_node s h) as [[p na]|]; [|reflexivity].
+  destruct (kind_eqb (na_kind na) KLink); [reflexivity|].
   pose proof (getattr_h_fr s h p) as (_ & F1c & _).
   rewrite getattr_h_mf0. destruct (getattr_h s h p) as [s1 [prea|e]]; cbn [fst snd] in *; [|reflexivity].
   match goal with |- context [if ?c then (mf0 s1, fail_wcc NFSERR_NOT_SYNC) else _] => destruct c end; [reflexivity|].
@@ -760,15 +788,15 @@ Proof.
   cbn [fst snd fail_wcc ob_mk ob_rpc ob_status fs blog clear_log]. auto.
 Qed.
 Lemma step_setattr_fbig s c h p na fi sa sz :
-  lookup_node s h = Some (p, na) -> be_stat (fs s) p false = Ok fi -> ro (conf s) = false ->
+  lookup_node s h = Some (p, na) -> na_kind na <> KLink -> be_stat (fs s) p false = Ok fi -> ro (conf s) = false ->
   match s_mode sa with Some m => N.testbit m 15 | None => false end = false ->
   s_size sa = Some sz -> sz < two63N -> 0 < maxfile (conf s) -> maxfile (conf s) < sz ->
   let r := step s c (RSetattr h sa None) in
   ob_rpc (snd r) = 0 /\ ob_status (snd r) = NFSERR_FBIG /\ fs (fst r) = fs s /\
   (forall b, In b (blog (fst r)) -> mutating b = false).
 Proof.
-  intros L St Hro Hmode Hsz H63 Hm Hbig. cbv zeta. rewrite step_setattr.
-  destruct (handle_setattr_size_reject (clear_log s) c h p na fi sa sz L St Hro Hmode Hsz) as (_ & X).
+  intros L Hk St Hro Hmode Hsz H63 Hm Hbig. cbv zeta. rewrite step_setattr.
+  destruct (handle_setattr_size_reject (clear_log s) c h p na fi sa sz L Hk St Hro Hmode Hsz) as (_ & X).
   destruct (X H63 Hm Hbig) as (A & B & C). apply RO_clear_safe in C. tauto.
 Qed.
 Lemma step_create_fbig s c h d dattr n sa sz dfi fi :
@@ -789,12 +817,12 @@ Qed.
 
 (* the two halves of [handle_setattr_size_reject], and the rename-proof reading of the bounds *)
 Lemma handle_setattr_size_inval s c h p na fi sa sz :
-  lookup_node s h = Some (p, na) -> be_stat (fs s) p false = Ok fi -> ro (conf s) = false ->
+  lookup_node s h = Some (p, na) -> na_kind na <> KLink -> be_stat (fs s) p false = Ok fi -> ro (conf s) = false ->
   match s_mode sa with Some m => N.testbit m 15 | None => false end = false ->
   s_size sa = Some sz -> two63N <= sz ->
   let r := handle_setattr s c h sa None in
   ob_rpc (snd r) = 0 /\ ob_status (snd r) = NFSERR_INVAL /\ RO s (fst r).
-Proof. intros L St Hro Hm Hs. exact (proj1 (handle_setattr_size_reject s c h p na fi sa sz L St Hro Hm Hs)). Qed.
+Proof. intros L Hk St Hro Hm Hs. exact (proj1 (handle_setattr_size_reject s c h p na fi sa sz L Hk St Hro Hm Hs)). Qed.
 
 Lemma handle_write_bound_spec s h off cnt stable data : 0 < maxfile (conf s) ->
   forall p o', fs_get (fs (fst (handle_write s h off cnt stable data))) p = Some o' -> o_kind o' = KFile ->
@@ -827,29 +855,43 @@ Qed.
 (* ====================================================================================================== *)
 (* what these three procedures keep: the handle table, the configuration, the clock; nodes are only updated *)
 Definition Keep (s s' : srv) : Prop :=
-  hm s' = hm s /\ conf s' = conf s /\ now s' = now s /\ (forall h, node_get s h <> None -> node_get s' h <> None).
-Lemma Keep_refl s : Keep s s. Proof. unfold Keep; auto. Qed.
+  hm s' = hm s /\ conf s' = conf s /\ now s' = now s /\
+  (forall h a, node_get s h = Some a -> exists a', node_get s' h = Some a' /\ na_kind a' = na_kind a).
+Lemma Keep_refl s : Keep s s. Proof. unfold Keep; splits; eauto. Qed.
 Lemma Keep_trans a b c : Keep a b -> Keep b c -> Keep a c.
-Proof. unfold Keep. intros (A1 & A2 & A3 & A4) (B1 & B2 & B3 & B4). splits; try congruence. auto. Qed.
-Lemma Keep_Fr a b : Fr a b -> Keep a b.
-Proof. intros (_ & A & B & C & D & _). unfold Keep. splits; auto. intros h. unfold node_get. rewrite C. auto. Qed.
-Lemma Keep_same a b : hm b = hm a -> conf b = conf a -> now b = now a -> nodes b = nodes a -> Keep a b.
-Proof. intros A B C D. unfold Keep. splits; auto. intros h. unfold node_get. rewrite D. auto. Qed.
-Lemma Keep_node_set s h a : Keep s (node_set s h a).
 Proof.
-  unfold Keep. splits; try reflexivity. intros h' H. unfold node_get, node_set in *. cbn [nodes with_nodes find fst].
-  destruct (h =? h') eqn:E; [discriminate|]. cbn [snd].
-  destruct (find (fun e => fst e =? h') (nodes s)) as [e|] eqn:F; [|congruence].
-  assert (G : find (fun e => fst e =? h') (filter (fun e => negb (fst e =? h)) (nodes s)) = Some e); [|rewrite G; discriminate].
-  clear H. induction (nodes s) as [|x l IH]; [discriminate|]. cbn [find filter] in *.
-  destruct (fst x =? h') eqn:X.
-  - injection F as ->. replace (fst e =? h) with false by lia. cbn [negb find]. rewrite X. reflexivity.
-  - destruct (negb (fst x =? h)); cbn [find]; rewrite ?X; apply IH; exact F.
+  unfold Keep. intros (A1 & A2 & A3 & A4) (B1 & B2 & B3 & B4). splits; try congruence.
+  intros h x Hx. destruct (A4 h x Hx) as (y & Hy & Ky). destruct (B4 h y Hy) as (z & Hz & Kz). exists z. split; congruence.
 Qed.
-Lemma Keep_node_upd s h f : Keep s (node_upd s h f).
-Proof. unfold node_upd. destruct (node_get s h); [apply Keep_node_set|apply Keep_refl]. Qed.
-Lemma srv_setattr_keep s h p cur new : Keep s (fst (srv_setattr s h p cur new)).
+Lemma Keep_same a b : hm b = hm a -> conf b = conf a -> now b = now a -> nodes b = nodes a -> Keep a b.
+Proof. intros A B C D. unfold Keep. splits; auto. intros h x. unfold node_get. rewrite D. eauto. Qed.
+Lemma Keep_Fr a b : Fr a b -> Keep a b.
+Proof. intros (_ & A & B & C & D & _). apply Keep_same; auto. Qed.
+Lemma node_get_set_other s h a h' : h <> h' -> node_get (node_set s h a) h' = node_get s h'.
 Proof.
+  intros Hn. unfold node_get, node_set. cbn [nodes with_nodes find fst].
+  replace (h =? h') with false by lia.
+  induction (nodes s) as [|x l IH]; [reflexivity|]. cbn [find filter].
+  destruct (fst x =? h) eqn:X; cbn [negb find].
+  - replace (fst x =? h') with false by lia. exact IH.
+  - destruct (fst x =? h'); [reflexivity|exact IH].
+Qed.
+Lemma Keep_node_set s h a : (forall a0, node_get s h = Some a0 -> na_kind a = na_kind a0) -> Keep s (node_set s h a).
+Proof.
+  intros Hk. unfold Keep. splits; try reflexivity. intros h' x Hx.
+  destruct (N.eq_dec h h') as [<-|Hn].
+  - exists a. split; [apply node_get_set|apply Hk; exact Hx].
+  - exists x. split; [rewrite node_get_set_other by exact Hn; exact Hx|reflexivity].
+Qed.
+Lemma Keep_node_upd s h f : (forall a, na_kind (f a) = na_kind a) -> Keep s (node_upd s h f).
+Proof.
+  intros Hf. unfold node_upd. destruct (node_get s h) as [a|] eqn:E; [|apply Keep_refl].
+  apply Keep_node_set. intros a0 H0. rewrite E in H0. injection H0 as <-. apply Hf.
+Qed.
+Lemma srv_setattr_keep s h p cur new : node_get s h = Some cur -> na_kind new = na_kind cur ->
+  Keep s (fst (srv_setattr s h p cur new)).
+Proof.
+  intros Hcur Hkind.
   unfold srv_setattr, do_stat. destruct (be_stat (fs s) p true) as [fi|e]; [|apply Keep_same; reflexivity].
   cbv zeta. set (s1 := logc s (bc BStat p)).
   assert (K1 : Keep s s1) by (apply Keep_same; reflexivity).
@@ -869,6 +911,7 @@ Proof.
     eapply Keep_trans; [exact U3|apply Keep_same; reflexivity]. }
   clearbody r4. destruct r4 as [s4 [u4|e]]; cbn [fst snd] in *; [|exact U4].
   eapply Keep_trans; [exact U4|]. eapply Keep_trans; [apply Keep_node_set|apply Keep_same; reflexivity].
+  intros a0 H0. destruct U4 as (_ & _ & _ & U4). destruct (U4 h cur Hcur) as (a' & A1 & A2). congruence.
 Qed.
 
 Lemma handle_read_keep s h off cnt : Keep s (fst (handle_read s h off cnt)).
@@ -876,6 +919,7 @@ Proof.
   unfold handle_read.
   destruct (two64 - 1 - cnt <? off); [apply Keep_refl|].
   destruct (lookup_node s h) as [[p na]|]; [|apply Keep_refl].
+  destruct (kind_eqb (na_kind na) KLink); [apply Keep_refl|].
   destruct (two63N <=? off); [apply Keep_refl|].
   set (s1 := logc s (bc BOpenR p)). assert (K1 : Keep s s1) by (apply Keep_same; reflexivity).
   destruct (be_open (fs s1) p false) as [q|e]; [|exact K1].
@@ -896,6 +940,7 @@ Proof.
   destruct (tsize (conf s) <? cnt); [apply Keep_refl|].
   match goal with |- context [if ?c then (s, fail_wcc NFSERR_FBIG) else _] => destruct c end; [apply Keep_refl|].
   destruct (lookup_node s h) as [[p na]|]; [|apply Keep_refl].
+  destruct (kind_eqb (na_kind na) KLink); [apply Keep_refl|].
   ga s1 pre F1 V1. apply Keep_Fr in F1. destruct pre as [prea|e]; [|exact F1].
   destruct (two63N <=? off).
   { ga s2 post F2 V2. apply Keep_Fr in F2. cbn [fst]. eapply Keep_trans; eassumption. }
@@ -911,7 +956,7 @@ Proof.
   match goal with |- context [getattr_h ?X h p] => assert (K8 : Keep s X) end.
   { match goal with |- context [match ?sti with Ok _ => node_upd ?Y _ _ | Err _ => _ end] =>
       assert (KY : Keep s Y) by (eapply Keep_trans; [exact K3|apply Keep_same; reflexivity]); destruct sti end;
-    [eapply Keep_trans; [exact KY|apply Keep_node_upd]|exact KY]. }
+    [eapply Keep_trans; [exact KY|apply Keep_node_upd; intros x; reflexivity]|exact KY]. }
   ga s9 post F9 V9. apply Keep_Fr in F9. destruct post; cbn [fst]; eapply Keep_trans; eassumption.
 Qed.
 
@@ -921,6 +966,7 @@ Proof.
   destruct (ro (conf s)); [apply Keep_refl|].
   destruct (match s_mode sa with Some m => N.testbit m 15 | None => false end); [apply Keep_refl|].
   destruct (lookup_node s h) as [[p na]|]; [|apply Keep_refl].
+  destruct (kind_eqb (na_kind na) KLink); [apply Keep_refl|].
   ga s1 pre F1 V1. apply Keep_Fr in F1. destruct pre as [prea|e]; [|exact F1].
   match goal with |- context [if ?c then (s1, fail_wcc NFSERR_NOT_SYNC) else _] => destruct c end; [exact F1|].
   match goal with |- context [match snd ?x with Some _ => _ | None => _ end] => set (rs := x) end.
@@ -934,11 +980,11 @@ Proof.
     unfold do_stat. cbn [fst snd].
     match goal with |- context [match ?sti with Ok _ => node_upd ?Y _ _ | Err _ => _ end] =>
       assert (KY : Keep s Y) by (eapply Keep_trans; [exact Kr|apply Keep_same; reflexivity]); destruct sti end;
-    [eapply Keep_trans; [exact KY|apply Keep_node_upd]|exact KY]. }
+    [eapply Keep_trans; [exact KY|apply Keep_node_upd; intros x; reflexivity]|exact KY]. }
   clearbody rs. destruct rs as [s4 [e|]]; cbn [fst snd] in *; [exact U|].
-  destruct (node_get s4 h) as [cur|]; [|exact U].
+  destruct (node_get s4 h) as [cur|] eqn:Ecur; [|exact U].
   match goal with |- context [srv_setattr s4 h p cur ?new] =>
-    pose proof (srv_setattr_keep s4 h p cur new) as S5; destruct (srv_setattr s4 h p cur new) as [s5 [u|e]] end;
+    pose proof (srv_setattr_keep s4 h p cur new Ecur eq_refl) as S5; destruct (srv_setattr s4 h p cur new) as [s5 [u|e]] end;
     cbn [fst] in *.
   - ga s6 post F6 V6. apply Keep_Fr in F6.
     apply Keep_trans with s4; [exact U|]. apply Keep_trans with s5; [exact S5|]. destruct post; exact F6.
@@ -960,6 +1006,21 @@ Definition Good (s : srv) : Prop :=
 Lemma Good_keep s s' : Good s -> Keep s s' -> nodup_keys (fs s') -> Good s'.
 Proof.
   intros (A & B & C & D) (K1 & K2 & K3 & K4) N. unfold Good. rewrite K1, K2. splits; auto.
+  intros h Hh. specialize (D h Hh). destruct (node_get s h) as [a|] eqn:E; [|congruence].
+  destruct (K4 h a E) as (a' & -> & _). discriminate.
+Qed.
+(* the handles of the specification's files carry nodes that are not symbolic links (READ, WRITE and SETATTR
+   refuse symlink handles); the three procedures never change the kind recorded in a node *)
+Definition Reg (s : srv) (m : sfiles) : Prop :=
+  forall h p a, get (hm s) h = Some p -> m p <> None -> node_get s h = Some a -> na_kind a <> KLink.
+Lemma Reg_keep s s' m p f : Keep s s' -> Good s -> Reg s m -> m p <> None -> Reg s' (supd m p f).
+Proof.
+  intros (K1 & _ & _ & K4) (_ & _ & _ & G) R Hp h q a' Hh Hq Ha. rewrite K1 in Hh.
+  assert (Hq' : m q <> None).
+  { unfold supd in Hq. destruct (path_eqb q p) eqn:E; [apply path_eqb_eq in E; subst q; exact Hp|exact Hq]. }
+  destruct (node_get s h) as [a|] eqn:Ea.
+  - destruct (K4 h a Ea) as (a2 & A1 & A2). rewrite Ha in A1. injection A1 as <-. rewrite A2. apply (R h q a Hh Hq' Ea).
+  - exfalso. apply (G h); [congruence|exact Ea].
 Qed.
 Lemma lookup_node_good s h p : Good s -> get (hm s) h = Some p -> exists na, lookup_node s h = Some (p, na).
 Proof.
@@ -1051,19 +1112,21 @@ Proof.
 Qed.
 
 Lemma data_step_refines s c m d p f :
-  Good s -> Abs s m -> get (hm s) (dreq_handle d) = Some p -> m p = Some f -> dreq_valid (tsize (conf s)) d ->
+  Good s -> Abs s m -> Reg s m -> get (hm s) (dreq_handle d) = Some p -> m p = Some f -> dreq_valid (tsize (conf s)) d ->
   let r := step s c (req_of d) in
   spec_reply (tsize (conf s)) f d (snd r) /\ Abs (fst r) (supd m p (spec_next f d)) /\ Good (fst r) /\ Keep s (fst r).
 Proof.
-  intros G A Hh Hm V. cbv zeta.
+  intros G A Rg Hh Hm V. cbv zeta.
   destruct (lookup_node_good s _ p G Hh) as (na & L).
+  assert (Hk : na_kind na <> KLink).
+  { apply (Rg _ p na Hh); [congruence|]. apply (lookup_node_some _ _ _ _ L). }
   destruct (A p f Hm) as (o & PK & B).
   assert (Kc : Keep s (clear_log s)) by (apply Keep_same; reflexivity).
   destruct G as (ND & Hro & Hmax & Hn).
   destruct d as [h off cnt|h off st data|h sz]; cbn [req_of dreq_handle dreq_valid spec_next] in *.
   - (* READ *)
     rewrite step_read. destruct V as [V1 V2].
-    pose proof (handle_read_ok (clear_log s) h p na o off cnt L PK V1 V2) as R. cbv zeta in R.
+    pose proof (handle_read_ok (clear_log s) h p na o off cnt L Hk PK V1 V2) as R. cbv zeta in R.
     destruct R as (R1 & R2 & R3 & R4 & R5 & R6f & _).
     pose proof (handle_read_keep (clear_log s) h off cnt) as K.
     destruct B as [Bs Bb]. cbn [file_of bf_size] in Bs.
@@ -1078,7 +1141,7 @@ Proof.
   - (* WRITE *)
     rewrite step_write. destruct V as [V1 V2].
     assert (NF : no_fbig_write (clear_log s) off (N.of_nat (length data))) by (left; exact Hmax).
-    destruct (handle_write_eq (clear_log s) h p na o off _ st data L PK ND Hro eq_refl V1 V2 NF) as (s' & a & prea & E & Ef).
+    destruct (handle_write_eq (clear_log s) h p na o off _ st data L Hk PK ND Hro eq_refl V1 V2 NF) as (s' & a & prea & E & Ef).
     pose proof (handle_write_keep (clear_log s) h off (N.of_nat (length data)) st data) as K.
     rewrite E in *. cbn [fst snd] in *. cbn [fs now clear_log] in Ef.
     splits.
@@ -1095,7 +1158,7 @@ Proof.
     rewrite step_setattr.
     assert (SO : size_only (size_sattr sz) sz) by (unfold size_only; cbn; repeat split; reflexivity).
     assert (NF : no_fbig_size (clear_log s) sz) by (left; exact Hmax).
-    destruct (handle_setattr_size_eq (clear_log s) c h p na o _ sz L PK Hro SO V NF) as (s' & a & prea & E & Ef).
+    destruct (handle_setattr_size_eq (clear_log s) c h p na o _ sz L Hk PK Hro SO V NF) as (s' & a & prea & E & Ef).
     pose proof (handle_setattr_keep (clear_log s) c h (size_sattr sz) None) as K.
     rewrite E in *. cbn [fst snd] in *. cbn [fs now clear_log] in Ef.
     splits.
@@ -1140,17 +1203,21 @@ Proof.
 Qed.
 
 Lemma history_refines : forall l s m,
-  Good s -> Abs s m -> covered (tsize (conf s)) (get (hm s)) m l -> refines (tsize (conf s)) (get (hm s)) s m l.
+  Good s -> Abs s m -> Reg s m -> covered (tsize (conf s)) (get (hm s)) m l ->
+  refines (tsize (conf s)) (get (hm s)) s m l.
 Proof.
-  induction l as [|x r IH]; intros s m G A C; [exact I|].
+  induction l as [|x r IH]; intros s m G A Rg C; [exact I|].
   cbn [refines]. destruct (C x (or_introl eq_refl)) as (V & p & Hp & Hm). rewrite Hp.
   destruct (m p) as [f|] eqn:Ef; [|congruence]. cbv zeta.
   unfold hrun1. set (s0 := with_now s (now s + hs_adv (hstep_of x))).
-  assert (G0 : Good s0) by exact G. assert (A0 : Abs s0 m) by exact A.
-  pose proof (data_step_refines s0 (d_cred x) m (d_req x) p f G0 A0 Hp Ef V) as (R1 & R2 & R3 & (K1 & K2 & _)).
+  assert (G0 : Good s0) by exact G. assert (A0 : Abs s0 m) by exact A. assert (Rg0 : Reg s0 m) by exact Rg.
+  pose proof (data_step_refines s0 (d_cred x) m (d_req x) p f G0 A0 Rg0 Hp Ef V) as (R1 & R2 & R3 & K).
+  assert (Rg1 : Reg (fst (step s0 (d_cred x) (req_of (d_req x)))) (supd m p (spec_next f (d_req x)))).
+  { apply (Reg_keep s0); [exact K|exact G0|exact Rg0|congruence]. }
+  destruct K as (K1 & K2 & _).
   cbn [hstep_of hs_cred hs_req]. split; [exact R1|]. split; [exact R2|].
   change (hm s0) with (hm s) in K1. change (conf s0) with (conf s) in K2.
-  rewrite <- K1, <- K2. apply IH; [exact R3|exact R2|]. rewrite K1, K2.
+  rewrite <- K1, <- K2. apply IH; [exact R3|exact R2|exact Rg1|]. rewrite K1, K2.
   apply covered_supd. intros y Hy. apply C. right. exact Hy.
 Qed.
 
@@ -1168,4 +1235,82 @@ Proof.
   intros H h G. unfold get in G. destruct (assocH h (handles (hm s))) as [p|] eqn:E; [|congruence].
   apply assocH_in in E. rewrite forallb_forall in H. specialize (H _ E). cbn [fst] in H.
   destruct (node_get s h); [discriminate|discriminate].
+Qed.
+
+(* an executable check of [Reg], for concrete states *)
+Lemma reg_check s (m : sfiles) :
+  forallb (fun e => match m (snd e), node_get s (fst e) with
+                    | Some _, Some a => negb (kind_eqb (na_kind a) KLink) | _, _ => true end) (handles (hm s)) = true ->
+  Reg s m.
+Proof.
+  intros H h p a Hh Hp Ha. unfold get in Hh. apply assocH_in in Hh. rewrite forallb_forall in H. specialize (H _ Hh).
+  cbn [fst snd] in H. rewrite Ha in H. destruct (m p); [|congruence]. intros E. rewrite E in H. discriminate.
+Qed.
+
+(* ====================================================================================================== *)
+(* 9. durability (C22): acknowledged FILE_SYNC data survives a crash                                      *)
+(* ====================================================================================================== *)
+Definition FILE_SYNC : N := 2.     (* RFC 1813 stable_how: UNSTABLE = 0, DATA_SYNC = 1, FILE_SYNC = 2 *)
+
+Lemma handle_write_durable s h p na o off cnt stable data :
+  lookup_node s h = Some (p, na) -> na_kind na <> KLink -> plain_file (fs s) p o -> nodup_keys (fs s) ->
+  ro (conf s) = false -> cnt = N.of_nat (length data) -> cnt <= tsize (conf s) ->
+  off + cnt < two63N -> no_fbig_write s off cnt ->
+  let r := handle_write s h off cnt stable data in
+  ob_status (snd r) = 0 /\ ob_nums (snd r) = [cnt; FILE_SYNC] /\
+  (exists oc, fs_get (be_crash (fs (fst r))) p = Some oc /\ o_kind oc = KFile /\
+              o_perm oc = o_perm o /\ o_uid oc = o_uid o /\ o_gid oc = o_gid o /\
+              bf_eq (file_of oc) (spec_write (file_of o) off data cnt)) /\
+  (forall p', p' <> p -> fs_get (be_crash (fs (fst r))) p' = fs_get (be_crash (fs s)) p').
+Proof.
+  intros L Hk PK ND Hro Hc Ht H63 Hm. cbv zeta.
+  destruct (handle_write_ok s h p na o off cnt stable data L Hk PK ND Hro Hc Ht H63 Hm) as (_ & A & B & (o' & C1 & C2 & C3 & C4 & C5 & C6 & C7) & D).
+  splits; [exact A|exact B| |].
+  - exists (crash_obj o'). rewrite fs_get_crash, C1, C2. splits; try reflexivity; try assumption.
+    eapply bf_eq_trans; [exact C7|exact C6].
+  - intros p' Hp. rewrite !fs_get_crash, (D p' Hp). reflexivity.
+Qed.
+
+Lemma map_error_nonzero e : map_error e <> 0.
+Proof. destruct e; vm_compute; discriminate. Qed.
+Ltac nonzero :=
+  cbn [snd fail_wcc ob_mk ob_status]; intros H; exfalso; revert H;
+  first [apply map_error_nonzero | vm_compute; discriminate].
+
+(* COMMIT never touches the tree, the configuration, or issues a mutating backend call; it answers OK exactly
+   with the attributes GetAttr returns *)
+Lemma handle_commit_spec s h :
+  let r := handle_commit s h in
+  RO s (fst r) /\
+  (ob_status (snd r) = 0 -> exists p na a, lookup_node s h = Some (p, na) /\ snd (getattr_h s h p) = Ok a /\
+                                      snd r = ob_mk st_ok [sf a] [wcc_of a] None [] []).
+Proof.
+  cbv zeta. unfold handle_commit. destruct (ro (conf s)); [split; [apply RO_refl|nonzero]|].
+  destruct (lookup_node s h) as [[p na]|]; [|split; [apply RO_refl|nonzero]].
+  pose proof (getattr_h_ro s h p) as R. destruct (getattr_h s h p) as [s1 [a|e]]; cbn [fst snd] in *; (split; [exact R|]).
+  - intros _. exists p, na, a. splits; reflexivity.
+  - nonzero.
+Qed.
+
+(* every WRITE that answers OK, in any state, reports committed = FILE_SYNC *)
+Lemma handle_write_committed s h off cnt stable data :
+  ob_status (snd (handle_write s h off cnt stable data)) = 0 ->
+  exists n, ob_nums (snd (handle_write s h off cnt stable data)) = [n; FILE_SYNC].
+Proof.
+  unfold handle_write.
+  destruct (ro (conf s)); [nonzero|].
+  destruct (two64 - 1 - cnt <? off); [nonzero|].
+  destruct (negb (cnt =? N.of_nat (length data))); [nonzero|].
+  destruct (tsize (conf s) <? cnt); [nonzero|].
+  match goal with |- context [if ?c then (s, fail_wcc NFSERR_FBIG) else _] => destruct c end; [nonzero|].
+  destruct (lookup_node s h) as [[p na]|]; [|nonzero].
+  destruct (kind_eqb (na_kind na) KLink); [nonzero|].
+  destruct (getattr_h s h p) as [s1 [prea|e]]; [|nonzero].
+  destruct (two63N <=? off). { destruct (getattr_h s1 h p) as [s2 post]. nonzero. }
+  cbv zeta.
+  destruct (be_open _ p true) as [q|e]. 2:{ destruct (getattr_h _ h p) as [s2 post]. nonzero. }
+  match goal with |- context [match snd ?w with Ok _ => _ | Err _ => _ end] => destruct (snd w) as [n|e] end.
+  2:{ destruct (getattr_h _ h p) as [s2 post]. nonzero. }
+  destruct (do_stat _ p) as [s7 sti]. destruct (getattr_h _ h p) as [s9 [a|e]]; [|nonzero].
+  intros _. exists n. reflexivity.
 Qed.
